@@ -223,7 +223,8 @@ def gen_object(ctx, otype):
                 [1, 2]), 'threshold': r.choice([1, 2]),
                 'method': r.choice([1, 2, 3, 4])})
             if o['method'] == 3 or r.random() < 0.2:
-                o['prime'] = r.choice([104729, 2 ** 61 - 1, 7])
+                o['prime'] = r.choice([104729, 2 ** 61 - 1, 7, 2 ** 63 - 25,
+                                        2 ** 64 - 59, 2 ** 127 - 1])
         return o
     if otype == 'PublicKey':
         return {'kft': 3, 'value': rsa_values(r.randrange(6))[0], 'alg': 4,
